@@ -362,7 +362,7 @@ void do_printf_ints(S &sink, char t, format_options opts,
 			}else{
 				_fmt_basics::print_int(sink, number, 2, opts.minimum_width,
 						opts.precision ? *opts.precision : 1, zero_fill ? '0' : ' ',
-						opts.left_justify, false, opts.always_sign, opts.plus_becomes_space,
+						opts.left_justify, false, false, false,
 						false, locale_opts);
 			}
 		};
@@ -394,7 +394,7 @@ void do_printf_ints(S &sink, char t, format_options opts,
 			}else{
 				_fmt_basics::print_int(sink, number, 8, opts.minimum_width,
 						opts.precision ? *opts.precision : 1, zero_fill ? '0' : ' ',
-						opts.left_justify, false, opts.always_sign, opts.plus_becomes_space,
+						opts.left_justify, false, false, false,
 						false, locale_opts);
 			}
 		};
@@ -427,7 +427,7 @@ void do_printf_ints(S &sink, char t, format_options opts,
 			}else{
 				_fmt_basics::print_int(sink, number, 16, opts.minimum_width,
 						opts.precision ? *opts.precision : 1, zero_fill ? '0' : ' ',
-						opts.left_justify, false, opts.always_sign, opts.plus_becomes_space,
+						opts.left_justify, false, false, false,
 						t == 'X', locale_opts);
 			}
 		};
@@ -457,8 +457,8 @@ void do_printf_ints(S &sink, char t, format_options opts,
 			}else{
 				_fmt_basics::print_int(sink, number, 10, opts.minimum_width,
 						opts.precision ? *opts.precision : 1, zero_fill ? '0' : ' ',
-						opts.left_justify, opts.group_thousands, opts.always_sign,
-						opts.plus_becomes_space, false, locale_opts);
+						opts.left_justify, opts.group_thousands, false,
+						false, false, locale_opts);
 			}
 		};
 
